@@ -19,7 +19,7 @@ RULE = ('Hypothesis-generated write histories (one list value: up to 400 writes 
         'every file must decompress to exactly its model content, no handle may be live, and a write may raise only '
         'if its last failed open attempt happened while no other handle was live. Part fastqhandle: the same through '
         'FastqHandle(single_cell=True). Non-trivial: an injected failure while >=2 handles were live followed by a '
-        'later write to a path that had been closed (append-mode reopen). Part bamsplit: the multi-pass split_bam_by_tag loop of bamSplitByTag.py for max_handles 1..n on small BAMs: the output files must partition the tagged records in input order (non-trivial: >=2 passes).')
+        'later write to a path that had been closed (append-mode reopen). Part rlimit: write histories in a child process whose RLIMIT_NOFILE is lowered to (open descriptors + 1..30), with maxHandles above that limit: the operating system makes open() fail (non-trivial: more targets than spare descriptors). Part bamsplit: the multi-pass split_bam_by_tag loop of bamSplitByTag.py for max_handles 1..n on small BAMs: the output files must partition the tagged records in input order (non-trivial: >=2 passes).')
 ASSUMPTIONS = ['faults occur at open() calls only (not at write/close)', 'payloads are text; gzip output is read back with the gzip module (multi-member)']
 
 
@@ -350,10 +350,92 @@ def eval_bamsplit(case):
     return out
 
 
+RLIMIT_CHILD = r'''
+import sys, json, os, resource, io, contextlib
+case = json.load(sys.stdin)
+from singlecellmultiomics.pyutils.handlelimiter import HandleLimiter
+base = len(os.listdir('/proc/self/fd'))
+soft, hard = resource.getrlimit(resource.RLIMIT_NOFILE)
+resource.setrlimit(resource.RLIMIT_NOFILE, (base + case['extra_fds'], hard))
+w = HandleLimiter(maxHandles=case['maxHandles'], pruneEvery=case['pruneEvery'])
+done = 0
+err = None
+buf = io.StringIO()
+try:
+    with contextlib.redirect_stdout(buf):
+        for t, payload in case['writes']:
+            w.write(os.path.join(case['dir'], 'cell%d.%s' % (t, 'gz' if case['gz'] else 'txt')), payload, method=1 if case['gz'] else 0)
+            done += 1
+        w.close()
+except BaseException as e:
+    err = repr(e)
+resource.setrlimit(resource.RLIMIT_NOFILE, (soft, hard))
+sys.stdout.write(json.dumps({'done': done, 'err': err}))
+'''
+
+
+def rlimit_strategy():
+    @st.composite
+    def case(draw):
+        nt = draw(st.sampled_from([8, 20, 40, 80, 150]))
+        n = draw(st.integers(nt, 500))
+        writes = []
+        for i in range(n):
+            t = i if i < nt and draw(st.booleans()) else draw(st.integers(0, nt - 1))
+            writes.append([t, 'rec%d\n' % i])
+        return {'writes': writes, 'gz': draw(st.booleans()), 'extra_fds': draw(st.sampled_from([1, 2, 3, 5, 10, 30])),
+                'maxHandles': draw(st.sampled_from([200, 200, 1000, 4, 30])), 'pruneEvery': draw(st.sampled_from([10000, 10000, 50, 7]))}
+    return case()
+
+
+def eval_rlimit(case):
+    """the same model check under a REAL descriptor limit (RLIMIT_NOFILE lowered in a child process): the operating
+    system, not the harness, makes open() fail with EMFILE"""
+    import sys
+    import json
+    import subprocess
+    out = Outcome()
+    d = os.path.join(scratch_dir(), 'c19r_%d' % os.getpid())
+    shutil.rmtree(d, ignore_errors=True)
+    os.makedirs(d)
+    try:
+        r = subprocess.run([sys.executable, '-c', RLIMIT_CHILD], input=json.dumps(dict(case, dir=d)).encode(), stdout=subprocess.PIPE,
+                           stderr=subprocess.PIPE, timeout=300)
+        try:
+            res = json.loads(r.stdout.decode() or '{}')
+        except ValueError:
+            res = {}
+        if r.returncode != 0 or 'done' not in res:
+            return out.bad('rlimit:child-died', 'exit %d: %s' % (r.returncode, r.stderr.decode('utf8', 'replace')[-300:]))
+        if res['err'] is not None:
+            # with at least one spare descriptor a file can always be opened once all others are closed
+            out.bad('rlimit:write-raised-although-openable', '%s after %d of %d writes (spare descriptors %d)' % (res['err'], res['done'], len(case['writes']), case['extra_fds']))
+        model = {}
+        for t, payload in case['writes'][:res['done']]:
+            model[t] = model.get(t, '') + payload
+        for t, content in sorted(model.items()):
+            got = read_back(os.path.join(d, 'cell%d.%s' % (t, 'gz' if case['gz'] else 'txt')), case['gz'])
+            if got != content:
+                kind = 'file-missing' if got is None else ('earlier-records-lost (truncated on reopen)' if content.endswith(got) else (
+                    'later-records-lost' if content.startswith(got) else 'content-differs'))
+                out.bad('rlimit:content:%s' % kind, 'cell%d: expected %d chars, file has %s; spare descriptors %d maxHandles %d' % (
+                    t, len(content), 'nothing' if got is None else '%d chars' % len(got), case['extra_fds'], case['maxHandles']))
+                break
+        targets = len({t for t, _ in case['writes']})
+        out.nontrivial = targets > case['extra_fds'] and case['maxHandles'] > case['extra_fds']
+        out.label('real RLIMIT_NOFILE')
+    except subprocess.TimeoutExpired:
+        out.label('rlimit child timed out (inconclusive)')
+    finally:
+        shutil.rmtree(d, ignore_errors=True)
+    return out
+
+
 def parts(tier):
     t = tier == 'thorough'
     return [
         Part('limiter', eval_limiter, strategy=lambda: history_strategy(200), examples=120000 if t else 3000),
         Part('fastqhandle', lambda c: eval_limiter(c, through_fastq=True), strategy=lambda: history_strategy(100), examples=40000 if t else 1000),
         Part('bamsplit', eval_bamsplit, strategy=bamsplit_strategy, examples=12000 if t else 300),
+        Part('rlimit', eval_rlimit, strategy=rlimit_strategy, examples=4000 if t else 96),
     ]
